@@ -165,7 +165,7 @@ impl Output {
                         // Rename the old output file so that we can create a new file in its place.
                         // Reusing the existing file would also be an option, but that wouldn't
                         // error if the file is currently being executed.
-                        let renamed_old_file = path.with_extension("delete");
+                        let renamed_old_file = temporary_path_for_old_output(&path);
                         #[cfg(wild_verif)]
                         simrt::sched_point("fw_rename");
                         let rename_status = std::fs::rename(&path, &renamed_old_file);
@@ -271,6 +271,18 @@ fn default_file_write_mode(args: &impl platform::Args, output_kind: OutputKind) 
     };
 
     FileWriteMode::UpdateInPlaceWithFallback
+}
+
+/// Returns the path that we rename an old output file to while we wait for it to be deleted in the
+/// background. The name is derived from the full name of the output file and our PID, so that we
+/// don't overwrite some unrelated file that happens to have the same stem as our output (e.g.
+/// `libfoo.delete` when writing `libfoo.so`) or the file of another link running concurrently in the
+/// same directory.
+fn temporary_path_for_old_output(path: &Path) -> std::path::PathBuf {
+    let mut name = std::ffi::OsString::from(".");
+    name.push(path.file_name().unwrap_or_default());
+    name.push(format!(".{}.wild-delete", std::process::id()));
+    path.with_file_name(name)
 }
 
 /// Delete the old output file. Note, this is only used when running from a single thread.
